@@ -23,7 +23,7 @@ from props.c03 import run_factor
 ID = 'C09'
 PROFILES = ['dev']
 REPLAY_PROFILES = ['dev', 'release']
-TIME_LIMIT = {'quick': 300, 'thorough': 1800}
+TIME_LIMIT = {'quick': 600, 'thorough': 1800}
 SCALES = ['Kelvin', 'temperature::CELSIUS', 'temperature::FAHRENHEIT']
 COMPANIONS = ['Meter', 'Second', 'units::WATT', 'length::FOOT', 'KiloGram']
 # a differently scaled unit of the same dimension (the companion is converted while the scale stays / changes)
